@@ -557,6 +557,10 @@ class SymC:
         return b + (-a)
 
     def __mul__(a, b):
+        if hasattr(b, "wires") and hasattr(b, "queue") and hasattr(b, "name"):  # scalar * Operator: PennyLane's TensorLike test does not know SymC
+            import pennylane as qp
+
+            return qp.s_prod(np.array(a, dtype=object), b)
         b = a._l(b)
         if b is NotImplemented:
             return b
